@@ -283,6 +283,13 @@ def offset_table_protocol(chk, io_mod, rid):
     chk.ob(rid, "the scan runs iff the table is not valid; None is returned only for a valid table", ok, ivc[0] if ivc else pf, "", key=f"{io_mod.relpath}:prepare_file_offset_table:rebuild-guard")
 
 
+def gdl_has_normal_return(fn) -> bool:
+    """every normal exit of fn is an explicit return statement (the function cannot fall off its end and yield None)."""
+    g = cfg_of(fn)
+    rets = [g.node_of(n) for n in walk_body(fn) if isinstance(n, ast.Return)]
+    return bool(rets) and g.must_pass(g.entry, rets, normal_only=True)
+
+
 def line_count_rule(chk, rid, ldr):
     """DocumentSetPreparator.create_file_offset_table: a line count that differs from the declared document count (0 lines included) removes the freshly written offset table and
     raises — shared with C03: a table left behind makes the retry skip the count (the table looks up to date) and the slices are then cut from the declared count."""
@@ -419,6 +426,15 @@ def run(chk):
                short(n, 70) + ("" if ok else " — a truncated but self-consistent response passes the size check and is renamed to the final name"), key=f"{_N}:_download_http:overwrite-expected-size")
     rets_ = [n for n in walk_body(dh) if isinstance(n, ast.Return) and n.value is not None]
     chk.ob("O14.1", "the transfer returns the size to verify against (declared, else Content-Length)", bool(rets_) and all(u(r.value) == esz for r in rets_), rets_[0] if rets_ else dh, "")
+
+    # the bucket transfer cannot learn a size from the transfer itself: it hands back the DECLARED size, so that net.download compares the bytes on disk with it before renaming
+    dfb = net.func("download_from_bucket")
+    bsz = [p_ for p_ in params_of(dfb) if "size" in p_]
+    brets = [n for n in walk_body(dfb) if isinstance(n, ast.Return)]
+    ok = bool(bsz) and bool(brets) and all(r.value is not None and u(returned(r)) == bsz[0] for r in brets) and gdl_has_normal_return(dfb)
+    chk.ob("O14.1", "the bucket transfer returns the declared size to verify against", ok, brets[0] if brets else dfb,
+           f"returns {[u(r.value) if r.value is not None else None for r in brets]}" + ("" if ok else " — the caller receives None, skips the size comparison and renames a truncated download to the final name"),
+           key=f"{_N}:download_from_bucket:returns-declared-size")
 
     # ---- O14.2 retry budget / HTTP status --------------------------------------------------------------------------------------------------------
     chk.rule("O14.2", "HTTP retry loop: range(N + 1), retry only for the two urllib3 protocol classes, re-raise on the last index, result returned; every non-2xx status raises an HTTP error "
